@@ -232,7 +232,10 @@ struct V2World {
   bool stop_begun[MAXW] = {false, false};
   Span wait_span[MAXW];
 
-  V2World() { for (int i = 0; i < MAXW; ++i) { ctx[i].id = i; ctx[i].deferred = true; } }
+  explicit V2World(bool startSet = false) : evt(startSet) {
+    log.start_set = startSet;
+    for (int i = 0; i < MAXW; ++i) { ctx[i].id = i; ctx[i].deferred = true; }
+  }
 
   template <bool Stoppable> void wait(int k) {
     owner[k] = rt::self();
@@ -424,6 +427,17 @@ SCENARIO(v2_cancel_vs_set) {
   V2World w;
   int t1 = rt::spawn([&] { w.wait<true>(0); });
   int t2 = rt::spawn([&] { w.stop(0); });
+  int t3 = rt::spawn([&] { w.set(); });
+  rt::join(t1); rt::join(t2); rt::join(t3);
+  w.finish(1);
+}
+
+// The event is constructed signalled and never reset: every ready() must answer true, also while a
+// late wait (push_front_unless_latched) or a redundant set() holds the head link's spinlock.
+SCENARIO(v2_ready_busy) {
+  V2World w(true);
+  int t1 = rt::spawn([&] { w.wait<false>(0); });
+  int t2 = rt::spawn([&] { w.ready(); w.ready(); });
   int t3 = rt::spawn([&] { w.set(); });
   rt::join(t1); rt::join(t2); rt::join(t3);
   w.finish(1);
